@@ -305,7 +305,12 @@ def gate_premise(prog: Program, rep: Any) -> None:
     from .report import DISCHARGED, Report, VIOLATED
 
     sub = Report("C06", "quick", "proof")
-    c06.run(prog, sub, "quick")
+    rep.rule("PREMISE-C06", "what is delivered is what the gate accepts: the gate is fef0 + one of the three broadcast lengths and rejects silently (C06 R6.1 / R6.2 on this tree)", 1)
+    try:
+        c06.run(prog, sub, "quick")
+    except AnalysisError as exc:
+        rep.undecided("PREMISE-C06", "gate", "src/aioswitcher/bridge.py", f"C06's analysis stopped on this tree: {exc}")
+        return
     rep.rule("PREMISE-C06", "what is delivered is what the gate accepts: the gate is fef0 + one of the three broadcast lengths and rejects silently (C06 R6.1 / R6.2 on this tree)", 1)
     bad = [o for o in sub.obligations if o.verdict != DISCHARGED and o.rule in ("R6.1", "R6.2")]
     if not bad:
